@@ -237,6 +237,18 @@ REGISTRY["C04"] = dict(
     explanation="Clauses C04-a..c of DESIGN.md §3 on MIR facts of the current tree. NOT decided: cross product, `&` substitution, ordering of emitted rules.",
     assumptions=TRUSTED + ["evaluation errors abort the compilation (Err exits need no restore)"],
 )
+REGISTRY["C10"] = dict(
+    module="c10",
+    level="other",
+    technique="static analysis: must-reach rule (a field must have an error-producing reader / a consulted map must have a writer), visibility-filter dominance shared with C05-d, no-effect-operation-on-temporary detector",
+    claim=(
+        "Three structural clauses only: (a) Extension/ExtendRule.is_optional must be read by a branch whose mandatory edge can produce an Err (`extending a missing target is an error unless !optional`); "
+        "(b) placeholder selectors are filtered before anything is written (C05-d); (c) the media contexts consulted while extending are recorded by some writer, and `get_mut(k).replace(v)` on temporaries are reported (undecided). "
+        "NOT decided: everything that makes @extend interesting - that rewritten selectors match the right elements, second-law specificity, trimming, media scoping semantics."
+    ),
+    explanation="Clauses of DESIGN.md §3 C10 on MIR facts of the current tree. Both (a) and the media-context part of (c) are violated on the pinned tree (missing features) and listed as known findings with reproducing inputs. NOT decided: matching semantics of extended selectors.",
+    assumptions=TRUSTED,
+)
 
 UNBUILT = "check not built yet in this session (design in DESIGN.md §3); not claimed until its rules run clean on the pinned tree"
 NOT_APPLICABLE = {
